@@ -1023,22 +1023,26 @@ def build_operands(Q, ctx, spec, rng):
 
 
 class Veterans:
-    """one long-lived qubit operand per type, on a subsystem name no case uses, built from FIXED data (so every run and
-    every replay of a shard builds the same ones); every case of the shard multiplies one of its operands with it"""
+    """long-lived qubit operands (per type: one on subsystem name 6, one on 7, one on 20), built lazily from FIXED data (so
+    every run and every replay of a shard builds the same ones); every case of the shard multiplies one of its operands
+    with a veteran whose name the case does not use (6 / 7: in the middle of the cases' names 0..13, so the veteran sorts
+    before some partners and after others; 20: always last)"""
 
-    NAME = 20
+    NAMES = (6, 7, 20)
     COUNT = {"Povm": 7, "MProcess": 5}  # different from every outcome count the cases draw
 
     def __init__(self, Q, ctx):
         self.Q, self.ctx, self.objs = Q, ctx, {}
 
-    def get(self, typ):
-        o = self.objs.get(typ)
+    def get(self, typ, used_names, hr):
+        free = [n for n in self.NAMES if n not in used_names]
+        name = free[int(hr.integers(0, len(free)))]
+        o = self.objs.get((typ, name))
         if o is None:
-            rng = np.random.default_rng([20260928, QOP.index(typ)])
-            es = make_es(self.Q, self.NAME, 2, "nggm" if typ in ("Gate", "MProcess") else "nherm")
+            rng = np.random.default_rng([20260928, QOP.index(typ), name])
+            es = make_es(self.Q, name, 2, "nggm" if typ in ("Gate", "MProcess") else "nherm")
             o = build_operand(self.Q, self.ctx, typ, self.Q.CompositeSystem([es]), rng, self.COUNT.get(typ), False)
-            self.objs[typ] = o
+            self.objs[(typ, name)] = o
         return o
 
 
@@ -1151,7 +1155,7 @@ def history_product(ctx, J, ops, Q, vets, fam, spec, operands, args_tree, in_ord
             vt = "State" if t == "StateEnsemble" else t
             if spec["typ"] in ("MProcess", "GateMProcess") and hr.random() < 0.5:
                 vt = "Gate" if t == "MProcess" else "MProcess"  # (MProcess demands orthonormal identity-first bases: these families have them)
-            v = vets.get(vt)
+            v = vets.get(vt, spec["names"], hr)
             product((0, 1), [v, o] if hr.random() < 0.5 else [o, v], ":veteran-operand")
     # ---- the first result again, against its leaves, after everything above
     if hr.random() < p_held:
